@@ -60,6 +60,9 @@ def check(col: Collector, tier: str):
     import_obligations(col, "C09.R12", "c06", lambda o: o.rule == "C06.R5" and (o.detail in ("unknown-key-raises", "allowed-keys-are-a-constant-of-this-backend",
                                                                                              "element_type-iff-contains_collection") or o.detail.startswith("allowed-key-read:")),
                        "malformed or unknown collection metadata must be refused - for every history - and no accepted key may be dropped")
+    # a name is refused unless it is bound where it is used: a lambda's parameters live in that lambda's frame only
+    from sa.props._tr import check_lambda_frames
+    check_lambda_frames(col, "C09.R13", repo, m)
     # the refusals must not depend on history: this query's plug-in table is a copy, discovered children first
     from sa.props._tr import check_finder
     col.floor("C09.R10", 4)
